@@ -123,8 +123,94 @@ func (fr *Frame) callFunc(st *State, fn *ssa.Function, args []Val, bindings []Va
 		*st = *out
 		return resultVal(res)
 	}
+	// 5. a library function from a package of pure value functions (strings, strconv, unicode, math, path) that takes and
+	// returns only plain values: modelled as a deterministic, effect-free function of its arguments
+	if v, ok := fr.pureValueCall(st, fn, name, args); ok {
+		return v
+	}
 	unsupported("call to %s: no contract, no model, body not available", name)
 	return nil
+}
+
+var pureValuePkgs = []string{"strings.", "strconv.", "unicode.", "unicode/utf8.", "math.", "math/bits.", "path.", "path/filepath.", "(time.Duration).", "(time.Month).", "(time.Weekday)."}
+
+// plainValue: a type whose values carry no references (so a function over them can neither observe nor change the heap).
+func plainValue(T types.Type, depth int) bool {
+	if depth > 4 {
+		return false
+	}
+	switch t := types.Unalias(T).Underlying().(type) {
+	case *types.Basic:
+		return t.Kind() != types.UnsafePointer
+	case *types.Struct:
+		for i := 0; i < t.NumFields(); i++ {
+			if !plainValue(t.Field(i).Type(), depth+1) {
+				return false
+			}
+		}
+		return true
+	case *types.Array:
+		return plainValue(t.Elem(), depth+1)
+	}
+	return false
+}
+
+func (fr *Frame) pureValueCall(st *State, fn *ssa.Function, name string, args []Val) (Val, bool) {
+	r := fr.run
+	okPkg := false
+	for _, p := range pureValuePkgs {
+		if strings.HasPrefix(name, p) {
+			okPkg = true
+		}
+	}
+	if !okPkg || r.eng.inRepo(fn) {
+		return nil, false
+	}
+	sig := fn.Signature
+	var ts []Term
+	var sorts []string
+	for i, a := range args {
+		var T types.Type
+		if sig.Recv() != nil {
+			if i == 0 {
+				T = sig.Recv().Type()
+			} else {
+				T = sig.Params().At(i - 1).Type()
+			}
+		} else {
+			T = sig.Params().At(i).Type()
+		}
+		t, isTerm := a.(Term)
+		if !isTerm || !plainValue(T, 0) {
+			return nil, false
+		}
+		ts = append(ts, t)
+		sorts = append(sorts, t.Sort)
+	}
+	if sig.Variadic() || sig.Results().Len() == 0 {
+		return nil, false
+	}
+	var vs []Val
+	for i := 0; i < sig.Results().Len(); i++ {
+		T := sig.Results().At(i).Type()
+		isErr := types.Identical(T, types.Universe.Lookup("error").Type())
+		if !plainValue(T, 0) && !isErr {
+			return nil, false
+		}
+		ret := r.eng.u.sortOf(T)
+		uf := fmt.Sprintf("ext_%s_%d", mangle(name), i)
+		r.eng.u.ufunc(uf, sorts, ret)
+		var res Term
+		if len(ts) == 0 {
+			res = r.def("ext", Term{uf, ret})
+		} else {
+			res = r.def("ext", app(ret, uf, ts...))
+		}
+		r.knownFacts(st, res, T)
+		vs = append(vs, res)
+	}
+	r.noteAssume("library function " + name + " (no contract written for it) is taken to be a deterministic, effect-free function of its plain-value arguments")
+	return resultVal(vs), true
 }
 
 func (fr *Frame) unconstrainedResults(st *State, sig *types.Signature) Val {
